@@ -6,6 +6,23 @@ use crate::oracle::{self, Verdict};
 use crate::rng::Rng;
 use crate::scenario::*;
 use crate::sched::SchedRecord;
+use crate::seq::{Focus, KState, Mis, Model, SeqDriver};
+use std::cell::RefCell;
+use std::collections::BTreeSet;
+
+thread_local! {
+    /// ids of the findings that known_findings.json lists as open: their triggers are avoided by
+    /// the "avoid" strata (explored at full strength otherwise) and sought by the "seek" strata
+    static OPEN: RefCell<BTreeSet<String>> = RefCell::new(BTreeSet::new());
+}
+
+pub fn set_open(ids: impl IntoIterator<Item = String>) {
+    OPEN.with(|o| *o.borrow_mut() = ids.into_iter().collect());
+}
+
+pub fn is_open(id: &str) -> bool {
+    OPEN.with(|o| o.borrow().contains(id))
+}
 
 pub struct Stratum {
     pub name: &'static str,
@@ -79,34 +96,614 @@ fn c18_conc(rng: &mut Rng, name: &'static str) -> Prepared {
     prep(sc)
 }
 
-pub fn plan(property: &str) -> Vec<Stratum> {
-    match property {
-        "C01" => vec![Stratum { name: "conc-observer", share: 10, gen: c01_conc }],
-        "C02" => vec![Stratum { name: "conc", share: 10, gen: c02_conc }],
-        "C12" => vec![Stratum { name: "conc-passive", share: 10, gen: c12_conc }],
-        "C13" => vec![Stratum { name: "conc-chaos", share: 10, gen: c13_conc }],
-        "C18" => vec![Stratum { name: "conc-hostile", share: 10, gen: c18_conc }],
-        _ => vec![],
+// ---------------------------------------------------------------- SEQ family
+fn seq_cfg(rng: &mut Rng) -> Cfg {
+    let keys = rng.range(2, 6) as u32;
+    let (weight_fn, weight) = match rng.below(10) {
+        0..=3 => (WeightFn::Default, *rng.pick(&[60i64, 100, 150, 250, 400])),
+        4..=6 => (WeightFn::ValueMod(*rng.pick(&[5i64, 9])), rng.range_i(10, 120)),
+        _ => {
+            let ws: Vec<i64> = (0..keys).map(|_| *rng.pick(&[1i64, 2, 3, 5, 8, 13, 20, 30, 50])).collect();
+            (WeightFn::PerKey(ws), rng.range_i(10, 200))
+        }
+    };
+    Cfg {
+        weight,
+        capacity: 16,
+        counters: if is_open("D8") { *rng.pick(&[2u64, 3, 7, 16, 64, 100]) } else { *rng.pick(&[1u64, 2, 3, 7, 16, 64, 100]) },
+        shards: *rng.pick(&[2usize, 2, 4, 8]),
+        queue: *rng.pick(&[1usize, 2, 4, 64]),
+        pool: *rng.pick(&[1usize, 1, 2, 4]),
+        buffer: *rng.pick(&[1usize, 2, 3, 8]),
+        hash: *rng.pick(&[HashMode::Identity, HashMode::Mixed, HashMode::Constant]),
+        weight_fn,
+        start: Dur { s: 1_700_000_000 + rng.below(10), n: *rng.pick(&[0u32, 1, 500_000_000, 999_999_999]) },
+        keys,
     }
 }
 
-/// Rebuild the online driver of a recorded scenario (replay).
-pub fn online_for(_sc: &Scenario) -> Option<Box<dyn Online>> {
+/// EDGE configuration: everything at its smallest, counters at and around powers of two, clocks
+/// near the epoch and far in the future.
+fn edge_cfg(rng: &mut Rng, allow_one_counter: bool) -> Cfg {
+    let mut c = seq_cfg(rng);
+    let mut counters: Vec<u64> = vec![2, 3, 4, 5, 7, 8, 9, 15, 16, 17, 31, 33, 64, 1 << 10, (1 << 12) + 1, 1 << 16];
+    if allow_one_counter {
+        counters.extend([1, 1, 1]);
+    }
+    c.counters = *rng.pick(&counters);
+    if rng.chance(2, 3) {
+        c.queue = 1;
+        c.pool = 1;
+        c.buffer = 1;
+        c.shards = 2;
+    }
+    c.start = match rng.below(4) {
+        0 => Dur { s: 0, n: *rng.pick(&[0u32, 1]) },
+        1 => Dur { s: 1, n: 999_999_999 },
+        2 => Dur { s: 32_503_680_000, n: 0 }, // year 3000
+        _ => c.start,
+    };
+    if rng.chance(1, 4) {
+        c.weight = *rng.pick(&[1i64, 2, 3, i64::MAX / 2, i64::MAX - 1, i64::MAX]);
+    }
+    c
+}
+
+fn c17_edge(rng: &mut Rng, name: &'static str) -> Prepared {
+    let mut p = seq_prepare(rng, "C17", name, "C17", (4, 30));
+    let cfg = edge_cfg(rng, !is_open("D8"));
+    rebuild_with_cfg(&mut p, cfg);
+    p
+}
+
+fn c17_seek(rng: &mut Rng, name: &'static str) -> Prepared {
+    // name = "seek-D6" | "seek-D7" | "seek-D8"
+    let finding = &name[5..];
+    let online = format!("C17:seek:{}", finding);
+    let mut p = seq_prepare(rng, "C17", name, &online, (4, 24));
+    let mut cfg = edge_cfg(rng, false);
+    if finding == "D8" {
+        cfg.counters = 1;
+        cfg.weight = cfg.weight.min(60);
+    }
+    if finding == "D10" {
+        cfg.weight = *rng.pick(&[i64::MAX, i64::MAX - 1]);
+    }
+    rebuild_with_cfg(&mut p, cfg);
+    p
+}
+
+fn rebuild_with_cfg(p: &mut Prepared, cfg: Cfg) {
+    let (focus, own) = focus_for(&p.scenario.online);
+    let drv = SeqDriver::new(focus, &cfg, p.scenario.online_seed, p.scenario.online_steps as usize, None, own);
+    p.scenario.cfg = cfg;
+    p.online = Some(Box::new(drv));
+}
+
+type Own = fn(&Mis, &Op, &Model) -> Option<String>;
+
+fn ctx_state(m: &Mis) -> String {
+    m.ctx.split(',').find(|p| p.starts_with("state=")).unwrap_or("state=?").to_string()
+}
+
+fn own_all(m: &Mis, _op: &Op, _pre: &Model) -> Option<String> {
+    if m.aspect == "hit_ratio" && is_open("D9") {
+        return None;
+    }
+    Some(format!("ALL/{}/{}/{}", m.aspect, m.class, m.ctx))
+}
+
+fn own_c01(m: &Mis, op: &Op, _pre: &Model) -> Option<String> {
+    if m.aspect == "limit" {
+        return Some(format!("C01/{}/after={}", m.class, oracle::opname2(op)));
+    }
     None
+}
+
+fn own_c03(m: &Mis, _op: &Op, _pre: &Model) -> Option<String> {
+    if m.aspect == "read" && (m.ctx.contains("state=live,") || m.ctx.contains("state=live-ttl,")) {
+        let class = if m.class == "missing" { "lost-live-key" } else { "altered-value" };
+        return Some(format!("C03/{}/seq,{}", class, ctx_state(m)));
+    }
+    None
+}
+
+fn own_c04(m: &Mis, op: &Op, pre: &Model) -> Option<String> {
+    let after_delete = matches!(op, Op::Delete { .. }) || (matches!(op, Op::AwaitAll) && pre.pending.iter().any(|p| matches!(p, Op::Delete { .. })));
+    if after_delete {
+        return match m.aspect {
+            "status" => Some(format!("C04/{}/{}", m.class, ctx_state(m))),
+            "store" => Some("C04/still-present-or-state-changed/store".to_string()),
+            "weights" | "weight_used" | "accounting" => Some(format!("C04/weight-not-released/{}", m.aspect)),
+            "index" => Some("C04/expiry-entry-not-released/index".to_string()),
+            _ => None,
+        };
+    }
+    if let Op::Read { .. } = op {
+        if m.aspect == "read" && m.class == "served-unreadable" && m.ctx.contains("state=soft-deleted") {
+            return Some("C04/read-after-delete-returned/seq".to_string());
+        }
+    }
+    if let Op::Put { key, .. } = op {
+        if m.aspect == "status" && pre.state(*key) == KState::Absent && pre.last_mutation == "delete" && pre.last_key == Some(*key) {
+            return Some("C04/reput-rejected/seq".to_string());
+        }
+    }
+    None
+}
+
+fn own_c05(m: &Mis, op: &Op, _pre: &Model) -> Option<String> {
+    if m.aspect == "accounting" {
+        return Some(format!("C05/{}/seq,after={}", m.class, oracle::opname2(op)));
+    }
+    None
+}
+
+fn own_c06(m: &Mis, _op: &Op, _pre: &Model) -> Option<String> {
+    if m.aspect == "admission" {
+        return Some(format!("C06/{}/seq", m.class));
+    }
+    None
+}
+
+fn own_c07(m: &Mis, op: &Op, pre: &Model) -> Option<String> {
+    if let Op::Put { key, .. } = op {
+        if m.aspect == "status" && (m.class == "readable-not-rejected" || m.class == "absent-rejected-as-existing") {
+            return Some(format!("C07/{}/{}", m.class, m.ctx));
+        }
+        if pre.state(*key).readable() && matches!(m.aspect, "store" | "weights" | "weight_used" | "index") {
+            return Some(format!("C07/overwrote-readable/{}", m.aspect));
+        }
+    }
+    if let Op::Read { .. } = op {
+        if m.aspect == "read" && m.class == "wrong-value" && pre.last_mutation.starts_with("put") && !pre.last_mutation.starts_with("put_or") {
+            return Some("C07/overwrote-readable/value".to_string());
+        }
+    }
+    None
+}
+
+fn own_c08(m: &Mis, op: &Op, pre: &Model) -> Option<String> {
+    let upsert_step = matches!(op, Op::Upsert { .. })
+        || (matches!(op, Op::AwaitAll) && pre.pending.iter().any(|p| matches!(p, Op::Upsert { .. })));
+    if upsert_step {
+        return match m.aspect {
+            "upsert" => Some(format!("C08/{}/{}", m.class, ctx_state(m))),
+            "status" => Some(format!("C08/status-{}/{}", m.class, ctx_state(m))),
+            "store" => Some("C08/field-not-applied-or-other-field-changed/store".to_string()),
+            "index" => Some("C08/expiry-index-not-updated/index".to_string()),
+            "weights" | "weight_used" => Some(format!("C08/weight-not-applied/{}", m.aspect)),
+            "admission" => Some(format!("C08/absent-not-put-like/{}", m.class)),
+            _ => None,
+        };
+    }
+    if let Op::Read { .. } = op {
+        if m.aspect == "read" && pre.last_mutation == "put_or_update" {
+            let class = if pre.pending.is_empty() { "not-applied" } else { "not-visible-at-return" };
+            return Some(format!("C08/{}/{},{}", class, m.class, ctx_state(m)));
+        }
+    }
+    None
+}
+
+fn own_c09(m: &Mis, _op: &Op, pre: &Model) -> Option<String> {
+    if m.aspect != "read" {
+        return None;
+    }
+    let st = ctx_state(m);
+    match (m.class.as_str(), st.as_str()) {
+        ("served-unreadable", "state=expired-unswept") => Some("C09/served-after-expiry/seq".to_string()),
+        ("missing", "state=live-ttl") => Some("C09/hidden-before-expiry/seq".to_string()),
+        ("wrong-value", "state=live-ttl") => Some("C09/wrong-value-before-expiry/seq".to_string()),
+        ("missing", "state=live") if matches!(pre.last_mutation.as_str(), "advance" | "tick" | "sweep" | "rotate") => {
+            Some("C09/no-ttl-expired/seq".to_string())
+        }
+        _ => None,
+    }
+}
+
+fn own_c10(m: &Mis, op: &Op, _pre: &Model) -> Option<String> {
+    let sweep_step = matches!(op, Op::AwaitIdle(RoleName::Sweeper) | Op::Rotate);
+    match m.aspect {
+        "sweep" => Some(format!("C10/{}/seq", m.class)),
+        "index" => Some(format!("C10/expiry-index-mismatch/after={}", oracle::opname2(op))),
+        "store" if sweep_step => Some("C10/wrong-keys-after-sweep/store".to_string()),
+        "weights" | "weight_used" if sweep_step => Some(format!("C10/weight-not-reclaimed/{}", m.aspect)),
+        _ => None,
+    }
+}
+
+fn own_c16(m: &Mis, _op: &Op, _pre: &Model) -> Option<String> {
+    if m.aspect.starts_with("stats.") {
+        return Some(format!("C16/{}/{}", m.aspect, m.class));
+    }
+    if m.aspect == "hit_ratio" {
+        return Some(format!("C16/hit-ratio/{}", m.ctx));
+    }
+    None
+}
+
+fn own_none(_m: &Mis, _op: &Op, _pre: &Model) -> Option<String> {
+    None
+}
+
+/// Focus and ownership of a SEQ driver by its online name ("<property>" or "<property>:seek:<finding>").
+fn focus_for(name: &str) -> (Focus, Own) {
+    let mut parts = name.split(':');
+    let prop = parts.next().unwrap_or("ALL");
+    let seek = if parts.next() == Some("seek") { parts.next() } else { None };
+    let mut f = Focus::base("ALL");
+    f.avoid_put_on_unreadable_present = is_open("D3") && seek != Some("D3");
+    f.avoid_value_only_upsert_on_unreadable = is_open("D4") && seek != Some("D4");
+    f.avoid_raise_beyond_free = is_open("D5") && seek != Some("D5");
+    f.avoid_remove_ttl_underflow = is_open("D6") && seek != Some("D6");
+    f.avoid_ttl_add_overflow = is_open("D10") && seek != Some("D10");
+    f.max_ttl_secs = 86_400 * 365;
+    let own: Own = match prop {
+        "C01" => {
+            f.property = "C01";
+            f.mix = [30, 28, 8, 8, 6, 6, 4, 10];
+            own_c01
+        }
+        "C03" => {
+            f.property = "C03";
+            f.mix = [22, 18, 12, 30, 8, 5, 3, 2];
+            own_c03
+        }
+        "C04" => {
+            f.property = "C04";
+            f.mix = [25, 10, 30, 20, 6, 4, 3, 2];
+            f.later_pct = 50;
+            own_c04
+        }
+        "C05" => {
+            f.property = "C05";
+            own_c05
+        }
+        "C06" => {
+            f.property = "C06";
+            f.mix = [45, 5, 5, 35, 2, 2, 1, 5];
+            f.ttl_pct = 10;
+            own_c06
+        }
+        "C07" => {
+            f.property = "C07";
+            f.mix = [40, 8, 10, 18, 14, 5, 3, 2];
+            f.ttl_pct = 55;
+            f.prefer = vec![KState::Live, KState::LiveTtl, KState::ExpiredUnswept];
+            own_c07
+        }
+        "C08" => {
+            f.property = "C08";
+            f.mix = [16, 40, 6, 18, 12, 4, 2, 2];
+            f.ttl_pct = 50;
+            f.later_pct = 40;
+            f.prefer = vec![KState::Live, KState::LiveTtl, KState::ExpiredUnswept, KState::Absent];
+            own_c08
+        }
+        "C09" => {
+            f.property = "C09";
+            f.mix = [20, 18, 4, 34, 18, 3, 1, 2];
+            f.ttl_pct = 75;
+            own_c09
+        }
+        "C10" => {
+            f.property = "C10";
+            f.mix = [22, 18, 8, 8, 16, 16, 10, 2];
+            f.ttl_pct = 75;
+            own_c10
+        }
+        "C16" => {
+            f.property = "C16";
+            f.mix = [22, 14, 8, 34, 6, 5, 3, 8];
+            own_c16
+        }
+        "C17" => {
+            f.property = "C17";
+            f.edge = true;
+            f.mix = [28, 30, 8, 12, 8, 6, 4, 4];
+            f.ttl_pct = 60;
+            f.later_pct = 10;
+            if !(is_open("D7") && seek != Some("D7")) {
+                f.max_ttl_secs = u64::MAX;
+            }
+            own_none
+        }
+        _ => own_all,
+    };
+    (f, own)
+}
+
+fn seq_prepare(rng: &mut Rng, property: &str, stratum: &'static str, online: &str, steps: (u64, u64)) -> Prepared {
+    let cfg = seq_cfg(rng);
+    let (focus, own) = focus_for(online);
+    let n = rng.range(steps.0, steps.1) as usize;
+    let seed = rng.next();
+    let mut sched = gen_sched(rng);
+    if rng.chance(25, 100) {
+        let role = *rng.pick(&[RoleName::Worker, RoleName::Sweeper, RoleName::Consumer]);
+        sched.stalls.push(gen_stall(rng, role));
+    }
+    let drv = SeqDriver::new(focus, &cfg, seed, n, None, own);
+    let sc = Scenario {
+        property: property.to_string(),
+        family: "SEQ".to_string(),
+        stratum: stratum.to_string(),
+        cfg,
+        threads: vec![vec![]],
+        online: online.to_string(),
+        online_seed: seed,
+        online_steps: n as u32,
+        sched,
+        salt: rng.next(),
+    };
+    Prepared { scenario: sc, online: Some(Box::new(drv)) }
+}
+
+fn all_seq(rng: &mut Rng, name: &'static str) -> Prepared {
+    seq_prepare(rng, "ALL", name, "ALL", (5, 40))
+}
+
+
+// ---------------------------------------------------------------- more CONC strata
+fn owners_params(rng: &mut Rng, ttl_pct: u64) -> ConcParams {
+    let mut p = ConcParams::base();
+    p.owner_per_key = true;
+    p.pressure = Pressure::Fits;
+    p.threads = (2, 4);
+    p.ops = (4, 14);
+    p.keys = (2, 6);
+    p.ttl_pct = ttl_pct;
+    p.mix = [24, 20, 10, 40, 1, 1, 0, 4];
+    p.time_thread = true;
+    let _ = rng;
+    p
+}
+
+fn c03_conc(rng: &mut Rng, name: &'static str) -> Prepared {
+    let p = owners_params(rng, 35);
+    prep(conc(rng, "C03", name, &p))
+}
+
+fn c09_conc_fits(rng: &mut Rng, name: &'static str) -> Prepared {
+    let mut p = owners_params(rng, 85);
+    p.mix = [22, 22, 4, 48, 0, 0, 0, 4];
+    prep(conc(rng, "C09", name, &p))
+}
+
+fn c09_conc_pressure(rng: &mut Rng, name: &'static str) -> Prepared {
+    let mut p = owners_params(rng, 85);
+    p.pressure = Pressure::Over;
+    prep(conc(rng, "C09", name, &p))
+}
+
+fn c10_conc(rng: &mut Rng, name: &'static str) -> Prepared {
+    let mut p = owners_params(rng, 85);
+    p.mix = [26, 26, 8, 36, 0, 0, 0, 4];
+    let mut sc = conc(rng, "C10", name, &p);
+    // make sure sweeps really happen: a dedicated time thread with ticks and rotations
+    let n = rng.range(3, 8) as usize;
+    let mut prog = vec![];
+    for _ in 0..n {
+        match rng.below(10) {
+            0..=3 => prog.push(Op::Advance(*rng.pick(&ADVANCES))),
+            4..=6 => prog.push(Op::Tick),
+            _ => prog.push(Op::Rotate),
+        }
+    }
+    sc.threads.push(prog);
+    prep(sc)
+}
+
+fn c04_conc(rng: &mut Rng, name: &'static str) -> Prepared {
+    let mut p = ConcParams::base();
+    p.keys = (1, 3);
+    p.mix = [28, 8, 26, 34, 0, 0, 3, 1];
+    p.wait_mix = [35, 40, 25];
+    p.pressure = *rng.pick(&[Pressure::Fits, Pressure::Fits, Pressure::Tight]);
+    p.stall_pct = 50;
+    p.stall_roles = vec![RoleName::Worker, RoleName::Worker, RoleName::Sweeper];
+    prep(conc(rng, "C04", name, &p))
+}
+
+fn c05_conc(rng: &mut Rng, name: &'static str) -> Prepared {
+    let mut p = ConcParams::base();
+    p.keys = (1, 3);
+    p.threads = (2, 4);
+    p.ops = (2, 8);
+    p.mix = [40, 25, 15, 12, 2, 0, 4, 2];
+    p.wait_mix = [20, 45, 35];
+    p.tiny_queue_pct = 75;
+    p.stall_pct = 55;
+    p.stall_roles = vec![RoleName::Worker, RoleName::Worker, RoleName::Sweeper];
+    p.pressure = *rng.pick(&[Pressure::Over, Pressure::Tight, Pressure::Fits]);
+    prep(conc(rng, "C05", name, &p))
+}
+
+fn c11_conc(rng: &mut Rng, name: &'static str) -> Prepared {
+    let mut p = ConcParams::base();
+    p.keys = (3, 8);
+    p.threads = (1, 4);
+    p.ops = (4, 14);
+    p.mix = [40, 14, 22, 8, 0, 0, 12, 4];
+    p.wait_mix = [10, 75, 15];
+    p.ttl_pct = 10;
+    p.tiny_queue_pct = 80;
+    p.stall_pct = 65;
+    p.stall_roles = vec![RoleName::Worker];
+    p.pressure = *rng.pick(&[Pressure::Fits, Pressure::Tight]);
+    let mut sc = conc(rng, "C11", name, &p);
+    // owner-only put -> delete pairs at the end of some programs
+    let n_threads = sc.threads.len();
+    for t in 0..n_threads {
+        if rng.chance(1, 2) {
+            let key = sc.cfg.keys + t as u32; // a key nobody else touches
+            let i = sc.threads[t].len();
+            sc.threads[t].push(Op::Put { key, val: token(t, i, key), weight: Some(1), ttl: None, wait: Wait::Later });
+            sc.threads[t].push(Op::Delete { key, wait: Wait::Later });
+            sc.threads[t].push(Op::AwaitAll);
+        }
+    }
+    sc.cfg.keys += n_threads as u32;
+    if let WeightFn::PerKey(ws) = &mut sc.cfg.weight_fn {
+        for _ in 0..n_threads {
+            ws.push(1);
+        }
+    }
+    sc.cfg.weight += n_threads as i64;
+    prep(sc)
+}
+
+fn c15_pipe(rng: &mut Rng, name: &'static str) -> Prepared {
+    let mut p = ConcParams::base();
+    p.keys = (2, 4);
+    p.threads = (1, 4);
+    p.ops = (6, 24);
+    p.mix = [6, 3, 1, 86, 0, 2, 1, 1];
+    p.ttl_pct = 0;
+    p.time_thread = false;
+    p.pressure = Pressure::Fits;
+    p.stall_pct = 0;
+    p.wait_mix = [80, 15, 5];
+    let mut sc = conc(rng, "C15", name, &p);
+    sc.cfg.pool = *rng.pick(&[1usize, 1, 2, 3]);
+    sc.cfg.buffer = *rng.pick(&[1usize, 1, 2, 3]);
+    // thread 0 first puts every key so that reads hit
+    let mut pre: Vec<Op> = (0..sc.cfg.keys).map(|k| Op::Put { key: k, val: token(0, 900 + k as usize, k), weight: None, ttl: None, wait: Wait::Now }).collect();
+    pre.extend(sc.threads[0].drain(..));
+    sc.threads[0] = pre;
+    match rng.below(10) {
+        0..=3 => sc.sched.stalls.push(Stall { role: RoleName::Consumer, from: 0, until: u64::MAX }),
+        4..=6 => sc.sched.stalls.push(gen_stall(rng, RoleName::Consumer)),
+        _ => {}
+    }
+    prep(sc)
+}
+
+fn c16_conc(rng: &mut Rng, name: &'static str) -> Prepared {
+    let mut p = ConcParams::base();
+    p.owner_per_key = is_open("D2");
+    p.keys = (2, 6);
+    p.mix = [24, 16, 10, 42, 2, 3, 1, 2];
+    p.pressure = *rng.pick(&[Pressure::Over, Pressure::Tight, Pressure::Fits]);
+    // all-hit / all-miss workloads now and then
+    let mut sc = conc(rng, "C16", name, &p);
+    match rng.below(8) {
+        0 => {
+            // all-miss: nobody ever writes
+            for t in sc.threads.iter_mut() {
+                for op in t.iter_mut() {
+                    if op.is_write() {
+                        *op = gen_read(rng, sc.cfg.keys);
+                    }
+                }
+            }
+        }
+        _ => {}
+    }
+    prep(sc)
+}
+
+macro_rules! seq_stratum {
+    ($fname:ident, $prop:expr, $online:expr, $lo:expr, $hi:expr) => {
+        fn $fname(rng: &mut Rng, name: &'static str) -> Prepared {
+            seq_prepare(rng, $prop, name, $online, ($lo, $hi))
+        }
+    };
+}
+seq_stratum!(c01_seq, "C01", "C01", 6, 40);
+seq_stratum!(c01_seek_d5, "C01", "C01:seek:D5", 4, 20);
+seq_stratum!(c03_seq, "C03", "C03", 30, 120);
+seq_stratum!(c04_seq, "C04", "C04", 6, 40);
+seq_stratum!(c05_seq, "C05", "C05", 6, 40);
+seq_stratum!(c07_seq, "C07", "C07", 6, 40);
+seq_stratum!(c07_seek_d3, "C07", "C07:seek:D3", 4, 20);
+seq_stratum!(c08_seq, "C08", "C08", 6, 40);
+seq_stratum!(c08_seek_d4, "C08", "C08:seek:D4", 4, 20);
+seq_stratum!(c09_seq, "C09", "C09", 6, 40);
+seq_stratum!(c10_seq, "C10", "C10", 8, 50);
+seq_stratum!(c16_seq, "C16", "C16", 6, 40);
+
+pub fn plan(property: &str) -> Vec<Stratum> {
+    let mut v = match property {
+        "C01" => vec![Stratum { name: "conc-observer", share: 6, gen: c01_conc }, Stratum { name: "seq-model", share: 4, gen: c01_seq }],
+        "C02" => vec![Stratum { name: "conc", share: 10, gen: c02_conc }],
+        "C03" => vec![Stratum { name: "conc-owners", share: 7, gen: c03_conc }, Stratum { name: "seq-long", share: 3, gen: c03_seq }],
+        "C04" => vec![Stratum { name: "conc-delete-race", share: 6, gen: c04_conc }, Stratum { name: "seq-model", share: 4, gen: c04_seq }],
+        "C05" => vec![Stratum { name: "conc-same-key-races", share: 8, gen: c05_conc }, Stratum { name: "seq-model", share: 2, gen: c05_seq }],
+        "C07" => vec![Stratum { name: "seq-lifecycle", share: 10, gen: c07_seq }],
+        "C08" => vec![Stratum { name: "seq-upsert", share: 10, gen: c08_seq }],
+        "C09" => vec![
+            Stratum { name: "seq-clock", share: 5, gen: c09_seq },
+            Stratum { name: "conc-owners-fits", share: 3, gen: c09_conc_fits },
+            Stratum { name: "conc-owners-pressure", share: 2, gen: c09_conc_pressure },
+        ],
+        "C10" => vec![Stratum { name: "seq-sweeps", share: 6, gen: c10_seq }, Stratum { name: "conc-owners-sweeps", share: 4, gen: c10_conc }],
+        "C11" => vec![Stratum { name: "conc-bursts", share: 10, gen: c11_conc }],
+        "C12" => vec![Stratum { name: "conc-passive", share: 10, gen: c12_conc }],
+        "C13" => vec![Stratum { name: "conc-chaos", share: 10, gen: c13_conc }],
+        "C15" => vec![Stratum { name: "pipe", share: 10, gen: c15_pipe }],
+        "C16" => vec![Stratum { name: "seq-model", share: 6, gen: c16_seq }, Stratum { name: "conc-quiescent", share: 4, gen: c16_conc }],
+        "C17" => vec![Stratum { name: "seq-edge", share: 10, gen: c17_edge }],
+        "C18" => vec![Stratum { name: "conc-hostile", share: 10, gen: c18_conc }],
+        "ALL" => vec![Stratum { name: "seq-all", share: 10, gen: all_seq }],
+        _ => vec![],
+    };
+    // seek strata exist only while the finding they look for is listed as open
+    match property {
+        "C01" if is_open("D5") => v.push(Stratum { name: "seek-D5", share: 1, gen: c01_seek_d5 }),
+        "C07" if is_open("D3") => v.push(Stratum { name: "seek-D3", share: 1, gen: c07_seek_d3 }),
+        "C08" if is_open("D4") => v.push(Stratum { name: "seek-D4", share: 1, gen: c08_seek_d4 }),
+        "C17" => {
+            if is_open("D6") {
+                v.push(Stratum { name: "seek-D6", share: 1, gen: c17_seek });
+            }
+            if is_open("D7") {
+                v.push(Stratum { name: "seek-D7", share: 1, gen: c17_seek });
+            }
+            if is_open("D8") {
+                v.push(Stratum { name: "seek-D8", share: 1, gen: c17_seek });
+            }
+            if is_open("D10") {
+                v.push(Stratum { name: "seek-D10", share: 1, gen: c17_seek });
+            }
+        }
+        _ => {}
+    }
+    v
+}
+
+/// Rebuild the online driver of a recorded scenario (replay).
+pub fn online_for(sc: &Scenario) -> Option<Box<dyn Online>> {
+    if sc.online.is_empty() {
+        return None;
+    }
+    let (focus, own) = focus_for(&sc.online);
+    let follow = sc.threads.first().cloned().unwrap_or_default();
+    Some(Box::new(SeqDriver::new(focus, &sc.cfg, sc.online_seed, follow.len(), Some(follow), own)))
 }
 
 pub fn judge(property: &str, sc: &Scenario, out: &RunOutput, _rec: &SchedRecord) -> Verdict {
     let hx = Hx::build(&out.log);
     let mut v = Verdict::new();
     v.violations.extend(out.violations.iter().cloned());
+    let conc = sc.family == "CONC";
     match property {
-        "C01" => oracle::c01(sc, &hx, &mut v),
+        "C01" if conc => oracle::c01(sc, &hx, &mut v),
         "C02" => oracle::c02(sc, &hx, &mut v),
+        "C03" if conc => oracle::c03_conc(sc, &hx, &mut v),
+        "C04" if conc => oracle::c04_conc(sc, &hx, &mut v),
+        "C05" if conc => oracle::quiescent_accounting(&hx, "C05", &mut v),
+        "C09" if conc => oracle::c09_conc(sc, &hx, &mut v, sc.stratum.ends_with("fits")),
+        "C10" if conc => oracle::c10_conc(sc, &hx, &mut v),
+        "C11" => oracle::c11(sc, &hx, &out.chans, &mut v),
         "C12" => {
             oracle::c12_passive(&hx, &mut v);
             v.nontrivial = hx.writes.iter().any(|w| w.ack_obs.map(|a| a.3 > 0).unwrap_or(false));
         }
         "C13" => oracle::c13(sc, &hx, &mut v),
+        "C15" => oracle::c15(sc, &hx, _rec, &out.chans, &mut v),
+        "C16" if conc => oracle::quiescent_accounting(&hx, "C16", &mut v),
         "C18" => {
             v.nontrivial = out.chans.iter().any(|c| c.send_blocked > 0)
                 || hx.hooks.iter().any(|h| matches!(h.2, crate::hist::Hook::SweepExpired { .. } | crate::hist::Hook::Evicted { .. }));
@@ -115,6 +712,14 @@ pub fn judge(property: &str, sc: &Scenario, out: &RunOutput, _rec: &SchedRecord)
             }
         }
         _ => {}
+    }
+    if !conc {
+        // SEQ family: the online driver judged every step; a run is non-trivial if it exercised
+        // what the property is about (per-property rule, rules.json)
+        v.nontrivial = seq_nontrivial(property, &hx);
+        for p in seq_probes(&hx) {
+            v.probes.push(p);
+        }
     }
     // generic reach probes
     for c in &out.chans {
@@ -126,4 +731,50 @@ pub fn judge(property: &str, sc: &Scenario, out: &RunOutput, _rec: &SchedRecord)
         }
     }
     v
+}
+
+fn seq_probes(hx: &Hx) -> Vec<&'static str> {
+    use crate::hist::Hook;
+    let mut p = vec![];
+    if hx.hooks.iter().any(|h| matches!(h.2, Hook::Evicted { .. })) {
+        p.push("eviction");
+    }
+    if hx.hooks.iter().any(|h| matches!(h.2, Hook::SweepExpired { .. })) {
+        p.push("sweep_expired_an_entry");
+    }
+    if hx.hooks.iter().any(|h| matches!(h.2, Hook::SampleEmpty)) {
+        p.push("eviction_sample_ran_dry");
+    }
+    if hx.writes.iter().any(|w| matches!(w.status(), Some(crate::hist::St::RejNoSpace))) {
+        p.push("rejected_not_enough_space");
+    }
+    if hx.writes.iter().any(|w| matches!(w.status(), Some(crate::hist::St::RejTooHeavy))) {
+        p.push("rejected_heavier_than_cache");
+    }
+    if hx.writes.iter().any(|w| matches!(w.status(), Some(crate::hist::St::RejExists))) {
+        p.push("rejected_key_already_exists");
+    }
+    if hx.writes.iter().any(|w| matches!(w.status(), Some(crate::hist::St::RejNoKey))) {
+        p.push("rejected_key_does_not_exist");
+    }
+    p
+}
+
+fn seq_nontrivial(property: &str, hx: &Hx) -> bool {
+    use crate::hist::{Hook, St};
+    let evicted = hx.hooks.iter().any(|h| matches!(h.2, Hook::Evicted { .. }));
+    let swept = hx.hooks.iter().any(|h| matches!(h.2, Hook::SweepExpired { .. }));
+    let rejected = hx.writes.iter().any(|w| matches!(w.status(), Some(St::RejNoSpace) | Some(St::RejTooHeavy)));
+    match property {
+        "C01" => evicted || rejected,
+        "C03" => swept || hx.writes.iter().filter(|w| w.is_delete() && w.status() == Some(St::Accepted)).count() > 0,
+        "C04" => hx.writes.iter().any(|w| w.is_delete() && w.status() == Some(St::Accepted)),
+        "C05" => evicted || swept,
+        "C07" => hx.writes.iter().any(|w| w.is_put() && w.status() == Some(St::RejExists)),
+        "C08" => hx.writes.iter().any(|w| w.is_upsert() && w.upsert_in_place()),
+        "C09" => !hx.advances.is_empty() && hx.writes.iter().any(|w| matches!(&w.op, Op::Put { ttl: Some(_), .. } | Op::Upsert { ttl: Some(_), .. })),
+        "C10" => swept,
+        "C16" => !hx.reads.is_empty() && hx.writes.iter().any(|w| w.status() == Some(St::Accepted)),
+        _ => true,
+    }
 }
